@@ -97,7 +97,7 @@ EvOK(ev) ==
     [] ev.k = "st_read"  -> ReadOK(ev)
     [] ev.k = "nocopy"   -> NocopyOK(ev)
     [] ev.k = "msg_m"    -> MsgMarshalOK(ev)
-    [] ev.k = "msg_u"    -> MsgUnmarshalOK(ev)
+    [] ev.k = "msg_u"    -> IF Prop = "C03" THEN ~ev.panic ELSE MsgUnmarshalOK(ev)
     [] OTHER -> TRUE
 
 Why(ev) == ev.k \o "/" \o ev.schema
